@@ -19,6 +19,7 @@ OWNS["C13"] += ["C01_NoForgedCompletion", "C03_RelForUnknown"]
 OWNS["C14"] += ["C01_AcceptedIsSaved", "C01_ErrorMeansNotEnqueued"]
 OWNS["C09"] = ["C09_", "C08_WholePackets"]
 OWNS["C15"] = ["C15_"]
+OWNS["C06"] = ["C06_"]
 FAMILIES["C15"] = ["out", "restart"]
 FAMILIES["C09"] = ["req", "out"]
 OWNS["C12"] += ["C13_NoPanic"]
@@ -303,10 +304,12 @@ def execute_and_judge(ctx, binary, behs, confirm=True):
                     continue
                 if any(clause.startswith(o) for o in owns):
                     found.append((clause, sb[cid - 1], tp, cid, seq))
-        ctx.cov["traces_validated_against_impl"] += len(sb) - len([c for c in badcases])
+        owned_bad = {cid for cid, items in badcases.items() if any(cl.startswith(o) for cl, _ in items for o in owns)}
+        ctx.cov["traces_validated_against_impl"] += len(sb) - len(owned_bad)
     ctx.cov["evaluations"] += len(behs)
     ctx.cov["events_judged"] = ctx.cov.get("events_judged", 0) + nev
-    ctx.cov["distinct_nontrivial"] += sum(1 for b in behs if len(b["procs"]) > 1 or (b.get("random") or {}).get("faults", 0) > 0 or b.get("steps"))
+    ctx.cov["distinct_nontrivial"] += sum(1 for b in behs if len(b["procs"]) > 1 or (b.get("random") or {}).get("faults", 0) > 0
+                                          or b.get("steps") or (b.get("frame") or {}).get("cuts"))
     ctx.cov["samples"] = (ctx.cov["samples"] + behs[:2])[:4]
     ndiv = nrace = 0
     for sb, tp in shards:
